@@ -107,7 +107,13 @@ class PFold(Fold):
         return S("const(%s)" % a)
 
     def elem(self, arr, idx):
-        return Fn("elem")(S(arr if arr.startswith("@") else "@" + arr), idx)
+        arr = arr if arr.startswith("@") else "@" + arr
+        if getattr(self, "array_versions", False):
+            # reads after a loop that wrote the array see a new version of it ("@a'1"): a value cached before that loop is told apart from one read after it
+            v = getattr(self, "aver", {}).get(arr, 0)
+            if v:
+                arr = "%s'%d" % (arr, v)
+        return Fn("elem")(S(arr), idx)
 
     def idx_value(self, s, env):
         s = s.strip()
@@ -292,6 +298,10 @@ class PFold(Fold):
                 val = S(tg[1])          # a script input (command line, file contents): stays a named atom
             env[tg[1]] = val
             return val
+        if self.loop_stack:
+            self.loop_stores = getattr(self, "loop_stores", {})
+            for lid_ in self.loop_stack:
+                self.loop_stores.setdefault(lid_, set()).add(tg[1])
         self.event({"kind": "store", "target": "%s[%s]" % (tg[1], tg[2]), "array": tg[1], "idx": [tg[2]], "value": val, "node": node, "line": self.line, "op": op,
                     "loop": self.loop_stack[-1] if self.loop_stack else None}, None)
         return val
@@ -606,6 +616,10 @@ class PFold(Fold):
             except Terminated:
                 pass
         self.loop_stack.pop()
+        if getattr(self, "array_versions", False) and not self.loop_stack:
+            self.aver = getattr(self, "aver", {})
+            for arr_ in getattr(self, "loop_stores", {}).get(lid, ()):
+                self.aver[arr_] = self.aver.get(arr_, 0) + 1
         del self.guards[mark:]
         desc["step"] = {nm: benv.get(nm) for nm in carried if nm in benv}
         desc["after"] = {}
